@@ -120,6 +120,7 @@ let () =
     toks := Array.of_list (split_ws line);
     pos := 0;
     if Array.length !toks = 0 then print_endline "" else begin
+      (match peek () with Some "WIRING" -> ignore (next ()); ignore (next ()) | _ -> ());
       (match next () with "SCH" -> () | t -> failwith ("expected SCH got " ^ t));
       let ns = next_int () in
       let sch = repeat ns parse_store in
@@ -135,6 +136,12 @@ let () =
         let evl = List.sort compare (List.map (fun e ->
           Printf.sprintf "EV:%s:%s:%s:%s" (string_of_name e.ev_store) (change_str e.ev_change) (hex_of_bytes e.ev_id) (bool_str e.ev_parent)) evs) in
         List.iter (fun e -> Buffer.add_char buf ' '; Buffer.add_string buf e) evl;
+        List.iter (fun d ->
+          let nm = string_of_name d.sd_name in
+          let pr tag l = Buffer.add_string buf (Printf.sprintf " %s:%s:%s" tag nm (String.concat "," (List.map hex_of_bytes l))) in
+          pr "Q" (query_ids sch !st d.sd_name);
+          pr "V" (valid_ids sch !st d.sd_name);
+          pr "L" (find_ids sch !st d.sd_name)) sch;
         Buffer.add_string buf " ST";
         List.iter (fun f -> Buffer.add_char buf ' '; Buffer.add_string buf f) (facts sch !st);
         Buffer.add_string buf " | "
